@@ -15,7 +15,7 @@ R06.4 frame-count helper and parser agree on the count per TOC code, and the
 R06.5 out-parameters are written only after the last failure return; callers
       provide 48-entry arrays.
 """
-from .. import sx, cfg as cfgm, guards, templates as T, absint
+from .. import sx, cfg as cfgm, guards, templates as T, absint, decide
 from ..guards import I
 from ..compdb import AnalysisBroken
 
@@ -41,6 +41,7 @@ def setup(rep, tier):
     rep.minimum('R06.5', 5)
     rep.minimum('R06.6', 2)
     rep.minimum('R06.7', 1)
+    rep.minimum('R06.9', 1)
 
 
 _spf_cache = {}
@@ -477,7 +478,48 @@ def r06_67(rep, prog):
                                             'uses %s' % used, **({} if ok else {'key': 'has-lbrr-duration'}))
 
 
+# ------------------------------------------------------------------ R06.9
+def r06_9(rep, prog):
+    """the LBRR helper agrees with the format on which modes can carry LBRR data: SILK-only and hybrid packets can, MDCT-only
+    packets cannot.  Decision table over the packet mode: the helper's early "no LBRR" return (before the packet is parsed)
+    is feasible for MDCT-only packets and for no other mode."""
+    if not prog.has_fn('opus_packet_has_lbrr'):
+        return 0
+    f = prog.fn('opus_packet_has_lbrr')
+    rep.functions.add(f.name)
+    cf = cfgm.CFG(f)
+    pm = [l for l in f.locals.values() if l['name'] == 'packet_mode']
+    parse = T.calls_to(cf, ('opus_packet_parse', 'opus_packet_parse_impl'))
+    inst = '%s:opus_packet_has_lbrr answers "no LBRR" without parsing for MDCT-only packets only' % prog.config
+    if not parse:
+        rep.unresolved('R06.9', inst + ': parse call not found')
+        return 0
+    pb = parse[0][0]
+    mk = None
+    for x in f.all_nodes():
+        if x[0] == 'assign' and sx.kind(sx.strip(x[1])) == 'local' and sx.kind(sx.strip(x[2])) == 'call' and sx.callee_name(sx.strip(x[2])) == 'opus_packet_get_mode':
+            mk = sx.key(sx.strip(x[1]))
+    if mk is None:
+        rep.unresolved('R06.9', inst + ': the mode of the packet is not taken from opus_packet_get_mode()')
+        return 0
+    bad = []
+    for mode, name in ((1000, 'SILK-only'), (1001, 'hybrid'), (1002, 'MDCT-only')):
+        feas = decide.feasible_blocks(cf, {mk: mode})
+        early = [(b, i, r) for b, i, r in T.returns_of(cf) if b in feas and len(r) > 1 and sx.int_val(sx.strip(r[1])) == 0 and not cf.dominates(pb, b)]
+        reaches_parse = pb in feas
+        if mode == 1002 and not early:
+            bad.append('%s packets are parsed although they cannot carry LBRR data (no early return)' % name)
+        if mode != 1002 and (early or not reaches_parse):
+            bad.append('%s packets get the early "no LBRR" answer' % name)
+    if bad:
+        rep.violated('R06.9', inst, f.where(), '; '.join(bad) + ': the helper disagrees with the decoder, which looks for LBRR data in every packet that is not MDCT-only', key='has-lbrr-mode-predicate')
+    else:
+        rep.holds('R06.9', inst, f.where(), '3 modes evaluated')
+    return 1
+
+
 def check(rep, prog, tier):
+    r06_9(rep, prog)
     r06_67(rep, prog)
     f, an, pd, pl = r06_1(rep, prog)
     r06_2(rep, prog, f, an, pd, pl)
